@@ -292,7 +292,8 @@ def to_rfi_all(cx, want=('SIB', 'FORMULA', 'NULLDEFAULT', 'WRITESET', 'SAMELAW',
         copy_def(cx, fn, 'data_t') if _has(fn, 'data_t') else cx.need(False, 'transform.to_rfi: result variable renamed')
         nc, nr = writeset(cx, fn, 'data_t', loop, roles['channels'], [tf])
         cx.floor('WRITESET', nc, 1, 'column stores in to_rfi')
-        cx.floor('SAMELAW', nr, 1, 'range stores in to_rfi')
+        if 'SAMELAW' in want:
+            cx.floor('SAMELAW', nr, 1, 'range stores in to_rfi')
         ret = fn.stmts(ast.Return)
         ok = len(ret) == 1 and sym.norm(ret[0].value) == ('var', 'data_t')
         fn.ob('WRITESET', 'the copy is what is returned', ok, ret[0] if ret else fn.ast, key='return')
@@ -365,7 +366,8 @@ def to_mef_all(cx, want=('GUARD', 'PAIR', 'WRITESET', 'SAMELAW')):
     if 'WRITESET' in want or 'SAMELAW' in want:
         nc, nr = writeset(cx, fn, 'data_t', loop, chi, [sc])
         cx.floor('WRITESET', nc, 1, 'column stores in to_mef')
-        cx.floor('SAMELAW', nr, 1, 'range stores in to_mef')
+        if 'SAMELAW' in want:
+            cx.floor('SAMELAW', nr, 1, 'range stores in to_mef')
         # stores only for requested channels
         skip = [st for st in loop.body if isinstance(st, ast.If)
                 and sym.norm(st.test) == sym.norm('%s not in channels_ind' % chi)
